@@ -97,6 +97,9 @@ type Msg struct {
 	Key   string
 	Pub   Iv
 	Seq   int
+	// PubExact is the publish time the server reports for the message (known
+	// once a delivery of it has been observed)
+	PubExact time.Time
 }
 
 type Del struct {
